@@ -248,6 +248,39 @@ func (p *Page) Type() string {
 	return ""
 }
 
+// maxInheritDepth bounds the walk up the page tree when looking for an
+// inheritable attribute (guards against /Parent cycles in damaged files).
+const maxInheritDepth = 64
+
+// inherited returns the value of an inheritable page attribute: the page's own
+// entry if present, otherwise the entry of the nearest ancestor Pages node that
+// has one (ISO 32000-1, 7.7.3.4). Returns nil if no ancestor defines it.
+func (p *Page) inherited(name string) core.Object {
+	if obj := p.dict.Get(name); obj != nil {
+		return obj
+	}
+	node := p.parent
+	for depth := 0; node != nil && depth < maxInheritDepth; depth++ {
+		if obj := node.Get(name); obj != nil {
+			return obj
+		}
+		parentObj := node.Get("Parent")
+		if parentObj == nil || p.resolver == nil {
+			return nil
+		}
+		resolved, err := p.resolver.Resolve(parentObj)
+		if err != nil {
+			return nil
+		}
+		next, ok := resolved.(core.Dict)
+		if !ok {
+			return nil
+		}
+		node = next
+	}
+	return nil
+}
+
 // MediaBox returns the page media box [x1 y1 x2 y2]
 // This is inheritable, so checks parent if not present
 func (p *Page) MediaBox() ([]float64, error) {
@@ -267,13 +300,8 @@ func (p *Page) CropBox() ([]float64, error) {
 
 // getBox retrieves a box attribute (inheritable)
 func (p *Page) getBox(name string) ([]float64, error) {
-	// Try page dict first
-	boxObj := p.dict.Get(name)
-
-	// If not found, try parent (inheritable)
-	if boxObj == nil && p.parent != nil {
-		boxObj = p.parent.Get(name)
-	}
+	// Page dict first, then the ancestors (inheritable)
+	boxObj := p.inherited(name)
 
 	if boxObj == nil {
 		return nil, fmt.Errorf("%s not found", name)
@@ -314,13 +342,8 @@ func (p *Page) getBox(name string) ([]float64, error) {
 // Resources returns the page resources dictionary
 // This is inheritable
 func (p *Page) Resources() (core.Dict, error) {
-	// Try page dict first
-	resourcesObj := p.dict.Get("Resources")
-
-	// If not found, try parent (inheritable)
-	if resourcesObj == nil && p.parent != nil {
-		resourcesObj = p.parent.Get("Resources")
-	}
+	// Page dict first, then the ancestors (inheritable)
+	resourcesObj := p.inherited("Resources")
 
 	if resourcesObj == nil {
 		return nil, fmt.Errorf("resources not found")
@@ -376,13 +399,8 @@ func (p *Page) Contents() ([]core.Object, error) {
 // Rotate returns the page rotation (0, 90, 180, or 270)
 // This is inheritable
 func (p *Page) Rotate() int {
-	// Try page dict first
-	rotateObj := p.dict.Get("Rotate")
-
-	// If not found, try parent (inheritable)
-	if rotateObj == nil && p.parent != nil {
-		rotateObj = p.parent.Get("Rotate")
-	}
+	// Page dict first, then the ancestors (inheritable)
+	rotateObj := p.inherited("Rotate")
 
 	if rotateObj == nil {
 		return 0 // Default
